@@ -105,6 +105,55 @@ def run(ck):
                   ("cerr" if "cerr" in r else ("panic" if "panic" in r else "setup_err")))
             stats["outcomes"][oc] = stats["outcomes"].get(oc, 0) + 1
             analyse(ck, job, res, cfg, ps, stats, cases, tag)
+    # ---- error paths: every fallback a failing call may trigger is an execution too ("success and error paths alike").
+    # For a fixed set of operations: one fault at every call of the unfaulted trace x a catalogue of errnos a kernel can
+    # plausibly answer there; every call of every such run is judged by the model-free monitor.
+    from props.C10 import OPS as SWEEP_OPS, TREE as SWEEP_TREE
+    ERRNOS = (13, 1, 38, 22, 18, 16, 30, 39, 95, 12, 5) if thorough else (13, 1, 38, 22)
+    for deny in ((), ("openat2",)):
+        tag = ",".join(deny) or "none"
+        basej = []
+        for i, op in enumerate(SWEEP_OPS):
+            j = {"id": 7000000 + i, "op": op, "snap": "none"}
+            if not op["k"].startswith("proc_"):
+                j["tree"] = SWEEP_TREE
+            basej.append(j)
+        _, bres, _ = run_driver_parallel(basej, deny=deny, tag="c05sb" + tag.replace(",", ""), shards=4)
+        sweep = []
+        for j in basej:
+            b_ = bres.get(j["id"])
+            if not b_ or "trace" not in b_:
+                continue
+            for at, ev in enumerate(b_["trace"]):
+                if ev["c"] in ("gettid", "geteuid", "close") or (ev["c"] == "fcntl" and ev.get("cmd") == 1):
+                    continue
+                for en in ERRNOS:
+                    j2 = dict(j)
+                    j2["id"] = 8000000 + len(sweep)
+                    j2["policy"] = {"fault": {"at": at, "errno": en}}
+                    sweep.append(j2)
+        if not thorough and len(sweep) > 1500:
+            # quick: every (operation, call kind, errno) at least once, then a sample
+            seen_, keep, rest_ = set(), [], []
+            for j2 in sweep:
+                b_ = bres[j2["id"] if False else [x["id"] for x in basej if x["op"] is j2["op"]][0]]
+                key = (id(j2["op"]), b_["trace"][j2["policy"]["fault"]["at"]]["c"], j2["policy"]["fault"]["errno"])
+                (keep if key not in seen_ else rest_).append(j2)
+                seen_.add(key)
+            sweep = keep + rng.sample(rest_, min(len(rest_), max(0, 1500 - len(keep))))
+        sby = {j2["id"]: j2 for j2 in sweep}
+        _, sres, _ = run_driver_parallel(sweep, deny=deny, tag="c05sw" + tag.replace(",", ""))
+        for jid, res in sres.items():
+            job = sby[jid]
+            stats["error_path_runs"] = stats.get("error_path_runs", 0) + 1
+            for which, t in (("handle construction", res.get("handle_trace", [])), ("operation", res.get("trace", []))):
+                bad = next(((i, ev, M.monitor_call(ev)) for i, ev in enumerate(t) if M.monitor_call(ev)), None)
+                if bad:
+                    ck.violation("C05 discipline (error path): " + bad[2],
+                                 {"job": J.describe(job), "deny": tag, "phase": which, "index": bad[0], "call": bad[1],
+                                  "injected": job["policy"]["fault"]})
+                    break
+            stats["calls"] += len(res.get("trace", []))
     # T1: replay through the model, and evaluate disc_b on the real calls
     if ck.proof_broken:
         # the development does not build: the model cannot be evaluated; the
@@ -146,8 +195,9 @@ def run(ck):
                          {"job": J.describe(job), "deny": tag, "replay": rep, "real_outcome": res.get("res"),
                           "around": tr[max(0, at - 2):at + 2]}, False)
     cov = {
-        "evaluations": stats["jobs"],
+        "evaluations": stats["jobs"] + stats.get("error_path_runs", 0),
         "distinct_nontrivial": len(nontrivial),
+        "error_path_runs_monitored": stats.get("error_path_runs", 0),
         "rule": "random trees (1-12 objects + link chains) x random ops/paths/flags, procfs ops on three handle kinds, "
                 "35% re-run with one injected fault, both kernel feature sets, plus C-API runs; a case is non-trivial "
                 "when its trace has more than one call and T1 replay matched; distinct by (op, feature set, trace length, outcome)",
